@@ -21,4 +21,6 @@ PROP = {'technique': 'property-based testing (rapid): validity predicate on the 
            {'name': 'TestVerifC05_Regress_ServerSendPath', 'unit': 'core:server', 'kind': 'plain'},
            {'name': 'TestVerifC05_ServerSendPath', 'unit': 'core:server', 'quick': 10000, 'thorough': 60000, 'shards_thorough': 8},
            {'name': 'TestVerifC05_Regress_ClientSendPath', 'unit': 'core:client', 'kind': 'plain'},
-           {'name': 'TestVerifC05_ClientSendPath', 'unit': 'core:client', 'quick': 10000, 'thorough': 60000, 'shards_thorough': 8}]}
+           {'name': 'TestVerifC05_ClientSendPath', 'unit': 'core:client', 'quick': 10000, 'thorough': 60000, 'shards_thorough': 8},
+           # real client + real server over loopback QUIC (real udpIOImpl on both sides): content of 1..4 fragment messages in both directions
+           {'name': 'TestVerifC05_E2EContent', 'unit': 'core:server', 'quick': 40, 'thorough': 300, 'shards_thorough': 4, 'timeout_quick': 600}]}
